@@ -29,6 +29,14 @@ import (
 //   the real loop (RecheckInterval 1h) is fed chunk notifications; callback answers are
 //   scripted per routine run (run k uses the k-th triple; beyond the script Done()=true).
 //   Observation: D<b> I<id>:<b> U<b> R<maxChunks>:<num>:<size> ... E
+//
+// Peer leecher with the real ticker:  T <parallel> <nruns> (<done> <susp> <mask>)* ; c <id> ; w ; ...
+//   RecheckInterval = 500us, `w` sleeps 1.2ms so that ticker runs interleave with the chunk runs.
+//   The interleaving is the runtime's, so this mode is TRACE VALIDATION: every chunk carries its
+//   op number, IsProcessed logs it (I<id>#<op>:<b>), the driver reads the sequence of routine
+//   runs off the log (a run that sweeps a chunk never seen before is that chunk's run, any other
+//   run is a ticker run), replays the model on that event sequence and compares the logs.  At
+//   most 2*parallel chunks per history, so no notification is ever dropped.
 
 func c18PeerName(p uint64) string {
 	if p == 0 {
@@ -224,6 +232,99 @@ func c18RunPeer(header []string, ops [][]string) []string {
 	return append(obs, "E")
 }
 
+type c18Chunk struct {
+	op int
+	id uint64
+}
+
+func c18RunTicker(header []string, ops [][]string) []string {
+	par, _ := strconv.Atoi(header[1])
+	nruns, _ := strconv.Atoi(header[2])
+	type ans struct {
+		done, susp bool
+		mask       uint64
+	}
+	script := make([]ans, nruns)
+	for i := 0; i < nruns; i++ {
+		m, _ := strconv.ParseUint(header[3+3*i+2], 10, 64)
+		script[i] = ans{header[3+3*i] == "1", header[3+3*i+1] == "1", m}
+	}
+	var mu sync.Mutex
+	var obs []string
+	run := -1
+	cur := func() ans {
+		if run >= 0 && run < len(script) {
+			return script[run]
+		}
+		return ans{done: true}
+	}
+	var wg sync.WaitGroup
+	d := basepeerleecher.New(&wg, basepeerleecher.EpochDownloaderConfig{
+		RecheckInterval:        500 * time.Microsecond,
+		DefaultChunkItemsNum:   7,
+		DefaultChunkItemsSize:  11,
+		ParallelChunksDownload: par,
+	}, basepeerleecher.EpochDownloaderCallbacks{
+		Done: func() bool {
+			mu.Lock()
+			defer mu.Unlock()
+			run++
+			a := cur()
+			obs = append(obs, "D"+vu.B(a.done))
+			return a.done
+		},
+		IsProcessed: func(id interface{}) bool {
+			mu.Lock()
+			defer mu.Unlock()
+			c := id.(c18Chunk)
+			b := c.id < 16 && cur().mask&(1<<c.id) != 0
+			obs = append(obs, fmt.Sprintf("I%d#%d:%s", c.id, c.op, vu.B(b)))
+			return b
+		},
+		Suspend: func() bool {
+			mu.Lock()
+			defer mu.Unlock()
+			a := cur()
+			obs = append(obs, "U"+vu.B(a.susp))
+			return a.susp
+		},
+		RequestChunks: func(maxNum uint32, maxSize uint64, maxChunks uint32) error {
+			mu.Lock()
+			defer mu.Unlock()
+			obs = append(obs, fmt.Sprintf("R%d:%d:%d", maxChunks, maxNum, maxSize))
+			return nil
+		},
+	})
+	d.Start()
+	nchunks := 0
+	for _, op := range ops {
+		if len(op) == 0 {
+			continue
+		}
+		switch op[0] {
+		case "c":
+			if nchunks >= 2*par {
+				continue // never more than the channel + table can hold: nothing is dropped
+			}
+			id, _ := strconv.ParseUint(op[1], 10, 64)
+			_ = d.NotifyChunkReceived(c18Chunk{nchunks, id})
+			nchunks++
+			vu.Stat("ticker_op_c")
+		case "w":
+			time.Sleep(1200 * time.Microsecond)
+			vu.Stat("ticker_op_w")
+		default:
+			panic("bad op " + op[0])
+		}
+	}
+	time.Sleep(600 * time.Microsecond)
+	d.Stop()
+	mu.Lock()
+	defer mu.Unlock()
+	vu.StatN("ticker_runs", run+1)
+	return append(obs, "E")
+}
+
 func c18Split(input []string) (header []string, ops [][]string) {
 	var cur []string
 	first := true
@@ -257,6 +358,8 @@ func c18Run(input []string) []string {
 		return c18RunBase(ops)
 	case "P":
 		return c18RunPeer(header, ops)
+	case "T":
+		return c18RunTicker(header, ops)
 	}
 	panic("bad header")
 }
@@ -325,6 +428,40 @@ func c18GenPeer(r *rand.Rand, emit func(...string)) {
 	emit(in...)
 }
 
+func c18GenTicker(r *rand.Rand, emit func(...string)) {
+	par := 1 + r.Intn(4)
+	nruns := 64
+	in := []string{"T", strconv.Itoa(par), strconv.Itoa(nruns)}
+	done := 0 // the application's Done() is monotone: once done it stays done
+	for i := 0; i < nruns; i++ {
+		if r.Intn(25) == 0 {
+			done = 1
+		}
+		susp := 0
+		if r.Intn(4) == 0 {
+			susp = 1
+		}
+		var mask uint64
+		switch r.Intn(3) {
+		case 0:
+			mask = 0
+		case 1:
+			mask = 0xff
+		default:
+			mask = uint64(r.Intn(256))
+		}
+		in = append(in, strconv.Itoa(done), strconv.Itoa(susp), strconv.FormatUint(mask, 10))
+	}
+	nc := 1 + r.Intn(2*par)
+	for i := 0; i < nc; i++ {
+		in = append(in, ";", "c", strconv.Itoa(r.Intn(8)))
+		if r.Intn(2) == 0 {
+			in = append(in, ";", "w")
+		}
+	}
+	emit(in...)
+}
+
 func c18Gen(r *rand.Rand, n int, tier string, emit func(...string)) {
 	// the known failing history of the pinned tree first (register, tick, unregister)
 	emit("B", ";", "r", "1", ";", "t", "0", "0", ";", "u", "1", "0")
@@ -335,8 +472,43 @@ func c18Gen(r *rand.Rand, n int, tier string, emit func(...string)) {
 			c18GenPeer(r, emit)
 		}
 	}
+	nt := n / 10
+	if nt > 600 {
+		nt = 600
+	}
+	for i := 0; i < nt; i++ {
+		c18GenTicker(r, emit)
+	}
+	if tier == "thorough" {
+		// exhaustive small scope, base leecher: every history of length <= 5 over two peers
+		syms := [][]string{{"r", "1"}, {"r", "2"}, {"x"}}
+		for _, p := range []string{"1", "2"} {
+			for _, c := range []string{"0", "1"} {
+				syms = append(syms, []string{"u", p, c})
+			}
+		}
+		for _, st := range []string{"0", "1"} {
+			for _, c := range []string{"0", "1"} {
+				syms = append(syms, []string{"t", st, c})
+			}
+		}
+		var rec func(prefix []string, depth int)
+		rec = func(prefix []string, depth int) {
+			if depth > 0 {
+				emit(prefix...)
+			}
+			if depth == 5 {
+				return
+			}
+			for _, sy := range syms {
+				next := append(append(append([]string{}, prefix...), ";"), sy...)
+				rec(next, depth+1)
+			}
+		}
+		rec([]string{"B"}, 0)
+	}
 }
 
 func init() {
-	vu.Register("C18", &vu.Prop{Gen: c18Gen, Run: c18Run, Parallel: 4})
+	vu.Register("C18", &vu.Prop{Gen: c18Gen, Run: c18Run, Parallel: 8})
 }
